@@ -97,6 +97,10 @@ func (c *simCache) evict(k string) {
 	c.mu.Unlock()
 }
 
+// ColdEvery: run indices that are multiples of it start in a fresh worker process (must equal the
+// check's ChunkRuns).
+const ColdEvery = 250
+
 // verdict is what the harness expects of a request, computed with gqlparser only.
 type verdict struct {
 	Accepted bool
@@ -172,6 +176,7 @@ func Run(rc *core.RunCtx) {
 		tw := Twins[t.Choose(len(Twins), "twin")]
 		ws = append(ws, tw[0], tw[1])
 	}
+	coldStart := rc.Res.Idx%ColdEvery == 0
 	// parser token limit (0 = none): a document that exceeds it fails parsing
 	tokenLimit := []int{0, 0, 0, 10, 25, 60}[t.Choose(6, "token-limit")]
 	reqs := make([]Req, n)
@@ -391,6 +396,12 @@ func Run(rc *core.RunCtx) {
 			break
 		}
 		a := acts[t.Choose(len(acts), "act")]
+		if coldStart && next == 0 && fl == 0 && n >= 2 {
+			// run indices that are multiples of ColdEvery are the first run of a fresh worker
+			// process (the orchestrator restarts workers there): start with two requests at
+			// once, so that whatever the process sets up on first use is set up under contention
+			a = action{kind: "launch2"}
+		}
 		switch a.kind {
 		case "release":
 			w.Release(a.it, nil)
